@@ -604,6 +604,21 @@ example : ∃ l x : List (Fl Minf), choleskySolve l ([⟨1⟩, ⟨1⟩] : List (
   simpa using this
 
 open Cv.RoundingLU.Examples in
+/-- `chol_weight_le` itself on the concrete Cholesky run (1 %-inflating model, `u = 1/100 > 0`): every entry
+of `|L̂||L̂ᵀ|` of the computed factor of `A2` is at most `5/(1 − γ₃)` -/
+example : ∃ l : List (Fl Minf), cholLoops 2 A2 = some l ∧ ∀ i j, i < 2 → j < 2 →
+    ∑ k ∈ range 2, |ev 2 l i k| * |ev 2 l j k| ≤ 5 / (1 - Minf.γ (2 + 1)) := by
+  obtain ⟨l, hl, _, _⟩ := A2_chol
+  have hc := cholesky_someG A2 l 2 rfl hl
+  refine ⟨l, hc, ?_⟩
+  exact chol_weight_le A2 l 2 hc (le_refl 2) (by rw [Minf_u]; norm_num)
+    (by unfold FlModel.γ; rw [Minf_u]; norm_num) 5
+    (by
+      intro i hi
+      have : i = 0 ∨ i = 1 := by omega
+      rcases this with rfl | rfl <;> norm_num [ev, rd])
+
+open Cv.RoundingLU.Examples in
 /-- `luRoute_residual_norm` / `luRoute_residual_growth` on the concrete LU run (`A3`, row exchange) -/
 example : ∃ x : List (Fl Minf), luSolve F3 [1, 0] ([⟨1⟩, ⟨1⟩] : List (Fl Minf)) = some x ∧ ∀ Wn xn,
     (∀ i, i < 2 → ∑ m ∈ range 2, ∑ j ∈ range 2, |Lv 2 F3 i j| * |Uv 2 F3 j m| ≤ Wn) →
